@@ -11,15 +11,18 @@ claims = {
   text="Proof of the safety (no-panic) obligations of the functions under contract on the build path, for all inputs admitted by their "
        "preconditions, with preconditions propagated to the callers: every nil dereference, index, slice bound, type assertion, explicit "
        "panic, nil-map write in the 170 scanner step functions, Next and its helpers, the include stack, jerr.NewJApiError/NewLocation/quote, "
-       "and the whole scanning phase of core (scanProject, drainCurrentScanner, next, process*, include handling, context resolution) is an "
-       "obligation discharged by SMT. Scope: the scanning phase; MACRO/PASTE expansion, catalog construction and serialisation are not yet "
-       "under contract (listed in evidence.unsupported / not_under_contract). Termination is not proved (loop variants not written).",
+       "the whole scanning phase of core (scanProject, drainCurrentScanner, next, process*, include handling, context resolution), Directive.Path, kit.NewJapi "
+       "and the 22 per-directive handlers of core/build_catalog_directives.go (under the precondition that a directive not allowed at the root has a parent - C11's "
+       "postcondition - and that the catalog's collections exist) is an obligation discharged by SMT. Scope: scanning and the handlers; the MACRO/PASTE expansion walk, "
+       "user-type compilation, path-variable assembly, the catalog setters' bodies (verified for their postconditions only) and serialisation are trusted or not under "
+       "contract (listed per run in the evidence). Termination is not proved except the PASTE depth bound.",
   note=TB + " Defects found by these obligations and repaired: D1/D2 (nil directive), D3 (INCLUDE \"\"), D5 (/*/), D19 (error in an empty included file).",
   ref="§6 C01"),
  "C07": dict(
   text="Proof, per construction site, that an error names the file/index it is located at: jerr.NewJApiError/NewLocation/OccurredInFile are verified "
        "against contracts that pin File, Index, Line/Column (as the dependency's LineAndColumn of exactly that file and index) and the trace entry "
-       "(path and line of the INCLUDE); every call site in scanner and the core scanning phase must satisfy 'file non-nil' and 'index inside the "
+       "(path and line of the INCLUDE; processInclude records exactly the INCLUDE keyword's position); every call site in scanner, the core scanning phase and the per-directive "
+       "handlers must satisfy 'file non-nil' and 'index inside the "
        "file'. The second requirement fails exactly for end-of-input errors (Index == len): recorded as known finding D8, and the same obligation "
        "restricted to everything outside that class is still discharged. Not decided: the order of the trace entries (quantified loop contract not "
        "written), compile-phase errors.",
@@ -40,7 +43,9 @@ claims = {
  "C05": dict(
   text="Proof of the representation invariant of the generated ordered maps (keys of the order list pairwise distinct and all present in the data map, Set changes exactly "
        "one key) for Tags, Servers, UserTypes, UserRules and Interactions, of the catalog invariant through AddTag/AddServer (names unique, stored value non-nil, tag name equals "
-       "its key), and of 'a successful addJSight leaves JSightVersion == 0.3'. Not decided: interaction ids, tag <-> interaction cross references, path variables, used user types.",
+       "its key), of 'a successful addJSight leaves JSightVersion == 0.3', and of three ingredients of the tag <-> interaction relation: the tags a Tags directive names are pairwise "
+       "distinct objects (so an interaction is attached to each once - D11 was the failure of this clause, repaired), a path tag is stored under its own name, and adding a "
+       "description keeps the tag object (and with it the interactions already attached). Not decided: interaction ids, the full two-way relation, path variables, used user types.",
   note=TB, ref="§6 C05"),
  "C06": dict(
   text="Sufficient conditions for determinism, each decided mechanically on the SSA of /repo's working tree: (1) map-order: every range over a Go map in the module has an "
@@ -118,13 +123,15 @@ claims = {
  "C17": dict(
   text="Panic clause only, thin: schemaObjectFromExchangeSchema's explicit panics are unreachable under its precondition (well-formed exchange schema whose notation is not "
        "'empty'), and newSchemas - which converts every user type - must establish it for every user type of a built catalog. It cannot for `TYPE @x empty`: recorded known "
-       "finding D13 (ToOpenAPIJson panics). The structural clauses of the statement ($ref resolution, parameters, response keys) are produced inside jsight-schema-core/openapi "
-       "and are not decided.",
+       "finding D13 (ToOpenAPIJson panics). Two structural clauses that are plain Go are proved: a path item, once stored in paths, is never replaced (so every operation "
+       "assigned to it is kept: closure of fillPaths) and assignOperation fills the slot of its method; same-code responses are all kept (newResponseAnyOf). $ref resolution, "
+       "parameters and response keys are produced inside jsight-schema-core/openapi and are not decided.",
   note=TB + " userTypesOK (the shape of a built catalog's user types) is a precondition that the build is not yet proved to establish.", ref="§6 C17", category="other"),
  "C19": dict(
   text="Proof of the ban-check obligations at every place a directive keyword is consumed: setCurrentDirective (all directives, including MACRO, PASTE and "
        "bodies of unused macros), processInclude (INCLUDE) and addDirective return the not-allowed error located at the keyword when the kind is banned; "
-       "a whole-module SSA scan shows bannedDirectives is written only by the option. The 'otherwise unchanged' half follows from no other contract mentioning the set.",
+       "a whole-module SSA scan shows bannedDirectives is written only by the option, and the option's closure is proved to only add to the set (bans given by several options "
+       "accumulate). The 'otherwise unchanged' half follows from no other contract mentioning the set.",
   note=TB + " Handlers behind JApiCore.directiveFunctions are called through an assumed uniform contract.",
   ref="§6 C19"),
 }
@@ -133,9 +140,12 @@ not_applicable = {
  "C02": "model round-trip over all renderings: needs a grammar of documents and an induction over them; function-level ingredients are claimed under C03/C05/C11/C12",
  "C15": "relational claim over permutations of a whole document; the order-insensitive part lives in jsight-schema-core",
  "C18": "schedules and data races: the translation is sequential (sync.* erased), no permission logic",
+ "C04": "well-formedness of the JSON is produced by encoding/json (reflection) and by jsight-schema-core's lazy Compile/GetAST/Example; the only clause that is /repo's own "
+        "(every stored schema was compiled successfully before the build succeeds) was examined by reading, which found D18 (repaired, 43ba4b3); a typestate proof would rest on "
+        "assumed contracts of the dependency only - see DESIGN.md section 7",
 }
 # properties not yet claimed in this revision are listed as not_applicable with the reason "not yet under contract"
-pending = ["C04"]
+pending = []
 
 checks = []
 for pid in sorted(claims):
